@@ -8,4 +8,7 @@ CONSTANTS
   Seed = 1
   Slice = 0
   NSlices = 1
+  Files = FALSE
+  FileMaxLen = 2
+  TextLevel = 0
 INVARIANTS RefRoundTrip RefNameRoundTrip EmitCase
